@@ -1,8 +1,10 @@
 """C04 — a mixture's descriptors are the sum of its components'.
 
-Proof: lean/PGA/Props/C04.lean — for the decomposition model, the disjoint union of two inputs of one scheme decomposes
-to the name-wise sum, and fails exactly when a component fails (every size).  That the matches of a connected pattern on
-'A.B' are those on A plus the shifted ones on B is the matcher's business (C08) and is validated here on every case.
+Proof: lean/PGA/Props/C04.lean — (above the matcher) the disjoint union of two inputs of one scheme decomposes to the
+name-wise sum, and fails exactly when a component fails (every size); (end to end) every pattern the reader returns is
+connected, an embedding of a connected pattern without molecule-level prefix into A ⊔ B lies in one component, the Benson
+perception works component by component, hence `decompose S (A ⊔ B)` is additive (`C04_decompose_union`), also for the graph
+numbered as RDKit numbers a mixture (`C04_decompose_mixture`, via C03).
 Oracle (relational): implementation on 'A.B' vs implementation on A and on B.
 """
 import itertools
@@ -141,10 +143,13 @@ def replay(ctx, rec):
     return len(ctx.violations) == before
 
 
-LEVEL_TEXT = ('Lean 4 theorem: for the decomposition model, the disjoint union of two inputs of one scheme (atoms of B shifted, no cross '
-              'edges, matches of each pattern = matches on A plus shifted matches on B) fails exactly when A or B fails and otherwise gives, '
-              'for every name, the sum of the components\' counts; any sizes; chain-free remaps; descriptor names separate from group names '
-              '(explicit hypothesis, checked per case). The implementation is compared with itself on A.B vs A and B (relational oracle).')
-LEVEL_NOTE = ('Trusted: Lean kernel, standard axioms, RDKit\'s treatment of dot-disconnected SMILES (A-graph). That connected patterns match '
-              'inside one component only is part of C08 (the matcher), not proved here.')
+LEVEL_TEXT = ('Lean 4 theorems: for the end-to-end model decompose and all well-formed graphs A, B, the disjoint union A ⊔ B (and any renumbering of it, as RDKit '
+              'numbers a mixture) fails exactly when A or B fails and otherwise gives, for every name, the sum of the components\' counts '
+              '(C04_decompose_union, C04_decompose_mixture) — through: every pattern the reader returns is connected (C04_load_connected), an embedding of a '
+              'connected pattern lies in one component (C04_embeds_union), the Benson perception works per component (C04_aromatize_union), and additivity of the '
+              'decomposition above the matcher (C04_descriptors_union; chain-free remaps; descriptor names separate from group names, checked per case). '
+              'The implementation is compared with itself on A.B vs A and B (relational oracle) and with the end-to-end model on the mixture\'s graph.')
+LEVEL_NOTE = ('Trusted: Lean kernel, standard axioms, RDKit\'s treatment of dot-disconnected SMILES (A-graph for mixtures: the mixture graph is the renumbered '
+              'union of the component graphs — measured on every compared mixture). Explicit hypothesis: no molecule-level prefix in any pattern (holds for '
+              'every pattern of the nine shipped schemes: table observation re-made each run from the live schemes through the model reader); no `*`, cap inactive.')
 TECHNIQUE = 'Lean 4 proof (additivity of the decomposition model over disjoint unions) + relational differential run of the implementation'
